@@ -27,7 +27,9 @@ change it: it re-evaluates the current references.
      awaitables do not count as pending);
   7. a synchronous reference (`assignSync p y`) counts as the plain assignment of the value it resolves
      to — except that `p` STAYS linked (and still owns no task); a change of the other source never
-     re-evaluates it (5.: it is not a `.task` reference);
+     re-evaluates it (5.: it is not a `.task` reference); one whose function skips (`assignSkip p`)
+     counts as the plain assignment of the value `p` holds, without a delivery: whatever was pending
+     on `p` is superseded all the same;
   8. an `_async_ref` task ends with an exception (other than its cancellation) only when a result was
      rejected: the exception is a `ValueError`, and there are at most as many as rejected results.
 -/
@@ -167,6 +169,11 @@ def checkEventH (np : Nat) (e : Env) (o : OSt) (ev : EventH) (obs : ObsH) : Exce
       -- `trigger(p)` re-assigns the value `p` held: a plain assignment of that value
       let v := o.vals[p]?.getD 0
       pure { (o.setLat p (.plain v)) with pend := o.pend ++ [(p, v)] }
+    | .assignSkip p =>
+      if obs.spawns != [] then throw "a synchronous reference scheduled a task"
+      -- no value yet: `p` keeps what it held, linked to the new reference; nothing is delivered
+      let o' := o.setLat p (.plain (o.vals[p]?.getD 0))
+      pure { o' with synced := p :: o'.synced }
     | .assignSync p y =>
       if obs.spawns != [] then throw "a synchronous reference scheduled a task"
       if e.rej y then pure o
